@@ -280,7 +280,7 @@ fn replay(_ctx: &Ctx, p: &std::path::Path, mut out: Outcome) -> Outcome {
                 out.violation(f.sig, f.detail, r.clone());
             }
         }
-        Some("typed") => {
+        Some("typed") | Some("typed-sweep") => {
             for f in typed::replay_one(r) {
                 println!("  FAIL {}: {}", f.0, f.1);
                 out.violation(f.0, f.1, f.2);
